@@ -97,6 +97,8 @@ namespace cgi {
 				h(booster::system::error_code(errc::protocol_violation,cppcms_category));
 				return;
 			}
+			// terminate the block so the strlen() calls below stay inside buffer_
+			buffer_.back() = 0;
 
 			char const *p=&buffer_[sep_ + 1];
 			while(p < &buffer_.back()) {
